@@ -140,6 +140,27 @@ theorem step_refines (E : Env) (fuel : Nat) (s : St) (op : Op) (h : CInv E s) :
             · intro f'; simp only [hpv2, h2]
             · intro _; exact ⟨f1, by simp [hf1]⟩
 
+  | setv n v =>
+    simp only [step, specStep]
+    cases hv : runVd E n v with
+    | error e => exact ⟨h, fun _ => rfl, fun _ => ⟨0, rfl⟩⟩
+    | ok v' =>
+      simp only
+      by_cases heq : v' = s.pv n
+      · simp only [heq, if_true]; exact ⟨h, fun _ => trivial, fun _ => ⟨0, trivial⟩⟩
+      · simp only [heq, if_false]
+        have hi := setV_inv E (E.isSwitch n) s n v' h
+        have hp := setV_pv (E.isSwitch n) s n v'
+        cases hm : evalM E fuel (setV (E.isSwitch n) s n v') E.validate with
+        | none => exact ⟨hi, fun _ => hp.symm, by simp [updOut]⟩
+        | some res =>
+          obtain ⟨rv, l, s2⟩ := res
+          obtain ⟨⟨f1, _, hf1, _⟩, hinv2, hpv2⟩ := evalM_refines E fuel _ _ _ _ _ hi hm
+          rw [hp] at hf1
+          refine ⟨hinv2, ?_, ?_⟩
+          · intro f'; simp only [hpv2, hp]
+          · intro _; exact ⟨f1, by simp [hf1]⟩
+
 theorem run_inv (E : Env) (fuel : Nat) : ∀ (ops : List Op) (s : St), CInv E s →
     CInv E (run E fuel s ops).2 := by
   intro ops
